@@ -3747,12 +3747,16 @@ def fd2_det1_nrm1(proj, rep, modules=None):
             if isinstance(s, ast.Assign) and isinstance(s.targets[0], ast.Name) and isinstance(s.value, ast.BinOp) and isinstance(s.value.op, ast.Div) \
                     and any(isinstance(c, ast.Call) and ast.unparse(c.func).split('.')[-1] == 'norm' for c in ast.walk(s.value.right)):
                 normed[s.targets[0].id] = s
+            elif isinstance(s, ast.AugAssign) and isinstance(s.target, ast.Name) and isinstance(s.op, ast.Div) \
+                    and any(isinstance(c, ast.Call) and ast.unparse(c.func).split('.')[-1] == 'norm' for c in ast.walk(s.value)):
+                normed[s.target.id] = s
         for s in ast.walk(fi.node):
             if isinstance(s, ast.Assign) and isinstance(s.targets[0], ast.Name) and s.targets[0].id in normed and s.lineno > normed[s.targets[0].id].lineno:
                 v = s.value
                 core = v.func.value if isinstance(v, ast.Call) and isinstance(v.func, ast.Attribute) and v.func.attr in ('copy', 'astype') else v
                 if isinstance(core, ast.Attribute) and core.attr in ('real', 'imag') and isinstance(core.value, ast.Name) and core.value.id == s.targets[0].id:
-                    later = [x for x in ast.walk(fi.node) if isinstance(x, ast.Assign) and isinstance(x.targets[0], ast.Name) and x.targets[0].id == s.targets[0].id and x.lineno > s.lineno
+                    later = [x for x in ast.walk(fi.node) if ((isinstance(x, ast.Assign) and isinstance(x.targets[0], ast.Name) and x.targets[0].id == s.targets[0].id)
+                                                              or (isinstance(x, ast.AugAssign) and isinstance(x.target, ast.Name) and x.target.id == s.targets[0].id)) and x.lineno > s.lineno
                              and any(isinstance(c, ast.Call) and ast.unparse(c.func).split('.')[-1] == 'norm' for c in ast.walk(x.value))]
                     if not later:
                         rep.touch(m)
@@ -3897,4 +3901,50 @@ def q8_un1_d4b_chk1(proj, rep, which):
                                   f'evaluated on a modified state', m, s)
                 else:
                     rep.ok('CHK1', fi.qual, f'`{ast.unparse(s)[:50]}` plumbing only', m, s)
+    return n
+
+
+RULE_GI1 = ('GI1: where a loop walks `enumerate(gate_index_list)` and records a per-position table, the entry of position k carries the gate object and the index tuple of position k '
+            '(the loop targets themselves, or gate_index_list[k]): two measurement gates with one name are two objects, each with its own recorded outcome.')
+
+
+def gi1(proj, rep, modules=('numqi.sim',)):
+    rep.rule('GI1', RULE_GI1)
+    n = 0
+    for fi in proj.iter_functions():
+        m = fi.module
+        if not any(m.name == x or m.name.startswith(x + '.') for x in modules):
+            continue
+        for lp in ast.walk(fi.node):
+            if not (isinstance(lp, ast.For) and isinstance(lp.iter, ast.Call) and ast.unparse(lp.iter.func) == 'enumerate' and lp.iter.args
+                    and ast.unparse(lp.iter.args[0]).split('.')[-1] == 'gate_index_list'):
+                continue
+            t = lp.target
+            if not (isinstance(t, ast.Tuple) and len(t.elts) == 2 and isinstance(t.elts[0], ast.Name) and isinstance(t.elts[1], ast.Tuple) and len(t.elts[1].elts) == 2
+                    and all(isinstance(e, ast.Name) for e in t.elts[1].elts)):
+                continue
+            pos, g, ix = t.elts[0].id, t.elts[1].elts[0].id, t.elts[1].elts[1].id
+            lst = ast.unparse(lp.iter.args[0])
+            for c in ast.walk(lp):
+                if not (isinstance(c, ast.Call) and ast.unparse(c.func) == 'dict'):
+                    continue
+                for kw in c.keywords:
+                    if kw.arg not in ('gate', 'index'):
+                        continue
+                    want = g if kw.arg == 'gate' else ix
+                    v = ast.unparse(kw.value).replace(' ', '')
+                    rep.touch(m)
+                    if v == want or v == f'{lst}[{pos}][{0 if kw.arg == "gate" else 1}]':
+                        n += 1
+                        rep.ok('GI1', fi.qual, f'`{kw.arg}={v}` is the loop\'s own {kw.arg}', m, c, text=f'{kw.arg} of position')
+                    elif pos not in {x.id for x in ast.walk(kw.value) if isinstance(x, ast.Name)} and want not in {x.id for x in ast.walk(kw.value) if isinstance(x, ast.Name)}:
+                        n += 1
+                        rep.violation('GI1', fi.qual, f'`{kw.arg}={v}` is not the {kw.arg} of position {pos}: it mentions neither `{want}` nor `{pos}`', m, c)
+                    elif any(isinstance(x, ast.Subscript) and isinstance(x.slice, ast.Constant) and isinstance(x.slice.value, int)
+                             and pos not in {y.id for y in ast.walk(x) if isinstance(y, ast.Name)} for x in ast.walk(kw.value)):
+                        n += 1
+                        rep.violation('GI1', fi.qual, f'`{kw.arg}={v}` picks a fixed element of a collection that is not addressed by the position `{pos}`: gates that share the key share one '
+                                                      f'object (for a measurement gate: one recorded outcome)', m, c)
+                    else:
+                        rep.undecided('GI1', fi.qual, f'`{kw.arg}={v}` not recognised as the loop\'s own {kw.arg}', m, c)
     return n
